@@ -142,6 +142,28 @@ impl Compiler {
     //@  loop 0 decreases self.upvalues.len() - __k0
     //@end
 
+
+    //@fn file=yarel/src/compiler.rs path=Compiler::push_loop
+    //@  requires old(self).wf()
+    //@  ensures final(self).wf(), final(self).loop_stack@ == old(self).loop_stack@.push((old(self).chunk.code@.len() as usize, old(self).scope_depth))
+    //@  ensures final(self).break_stack@.len() == old(self).break_stack@.len() + 1 && final(self).break_stack@.last()@.len() == 0
+    //@  ensures final(self).break_stack@.subrange(0, old(self).break_stack@.len() as int) == old(self).break_stack@
+    //@  ensures same_compiler_but_loops(*old(self), *final(self))
+    //@end
+
+    //@fn file=yarel/src/compiler.rs path=Compiler::push_break ret=r
+    //@  requires old(self).wf()
+    //@  ensures final(self).wf(), same_compiler_but_loops(*old(self), *final(self)), final(self).loop_stack == old(self).loop_stack
+    //@  ensures r is Ok ==> old(self).break_stack@.len() > 0 && final(self).break_stack@.len() == old(self).break_stack@.len() && final(self).break_stack@.last()@ == old(self).break_stack@.last()@.push(pos)
+    //@  ensures r matches Err(e) ==> e is InvalidControlStatement && old(self).break_stack@.len() == 0 && final(self).break_stack@ == old(self).break_stack@
+    //@end
+
+    //@fn file=yarel/src/compiler.rs path=Compiler::current_loop_header ret=r
+    //@  subst "self.loop_stack.last().copied()" => "option_copied(self.loop_stack.last())" count=1
+    //@  ensures self.loop_stack@.len() == 0 ==> r is None
+    //@  ensures self.loop_stack@.len() > 0 ==> r == Some(self.loop_stack@.last())
+    //@end
+
     //@fn file=yarel/src/compiler.rs path=Compiler::patch_jump ret=r
     //@  rewrite R6 R11
     //@  requires old(self).wf(), offset + 2 <= old(self).chunk.code.len()
@@ -154,6 +176,29 @@ impl Compiler {
     //@end
 }
 
+
+// ------------------------------------------------------------------ scope-exit vocabulary (C06)
+spec fn all_initialised(locals: Seq<Local>) -> bool { forall|i: int| 0 <= i < locals.len() ==> (#[trigger] locals[i]).depth.is_some() }
+spec fn close_op(l: Local) -> u8 { if l.is_captured { opcode_byte(OpCode::CloseUpvalue) } else { opcode_byte(OpCode::Pop) } }
+// number of innermost locals declared deeper than scope depth d
+spec fn drop_count(locals: Seq<Local>, d: usize) -> nat
+    decreases locals.len()
+{
+    if locals.len() == 0 || locals.last().depth.unwrap() <= d { 0 } else { 1 + drop_count(locals.drop_last(), d) }
+}
+// the instructions that discard them, innermost first; a captured one is closed, not popped
+spec fn scope_end_code(locals: Seq<Local>, d: usize) -> Seq<u8>
+    decreases locals.len()
+{
+    if locals.len() == 0 || locals.last().depth.unwrap() <= d { Seq::empty() } else { seq![close_op(locals.last())] + scope_end_code(locals.drop_last(), d) }
+}
+proof fn lemma_drop_count_le(locals: Seq<Local>, d: usize)
+    ensures drop_count(locals, d) <= locals.len(), scope_end_code(locals, d).len() == drop_count(locals, d)
+    decreases locals.len()
+{
+    if locals.len() == 0 || locals.last().depth.unwrap() <= d { } else { lemma_drop_count_le(locals.drop_last(), d); }
+}
+
 // ================================================================== Parser (emitters, resolution across compilers)
 //@struct file=yarel/src/compiler.rs name=ClassCompiler
 //@enum file=yarel/src/chunk.rs name=OpCode
@@ -163,6 +208,24 @@ impl Compiler {
 pub uninterp spec fn opcode_byte(op: OpCode) -> u8;
 #[verifier::external_body]
 fn opcode_u8(op: OpCode) -> (r: u8) ensures r == opcode_byte(op) { op as u8 }
+
+spec fn same_compiler_but_loops(a: Compiler, b: Compiler) -> bool {
+    &&& a.function == b.function && a.kind == b.kind && a.locals == b.locals && a.upvalues == b.upvalues
+    &&& a.scope_depth == b.scope_depth && a.lambda_count == b.lambda_count && a.in_try_block == b.in_try_block
+    &&& a.chunk == b.chunk
+}
+
+#[verifier::external_body]
+fn option_copied(o: Option<&(usize, usize)>) -> (r: Option<(usize, usize)>)
+    ensures o is None ==> r is None, o matches Some(p) ==> r == Some(*p),
+{ o.copied() }
+
+spec fn same_compiler_but_code_locals(a: Compiler, b: Compiler) -> bool {
+    &&& a.function == b.function && a.kind == b.kind && a.upvalues == b.upvalues
+    &&& a.scope_depth == b.scope_depth && a.lambda_count == b.lambda_count && a.in_try_block == b.in_try_block
+    &&& a.loop_stack == b.loop_stack && a.break_stack == b.break_stack
+    &&& a.chunk.constants == b.chunk.constants && a.chunk.constant_map == b.chunk.constant_map
+}
 
 spec fn same_compiler_but_code(a: Compiler, b: Compiler) -> bool {
     &&& a.function == b.function && a.kind == b.kind && a.locals == b.locals && a.upvalues == b.upvalues
@@ -455,6 +518,72 @@ impl Parser {
     //@  loop 0 ensures s.pwf(), old(s).has_error() ==> s.has_error(), s.compilers.len() == old(s).compilers.len()
     //@  loop 0 ensures arg_count as int == s.pushed - old(s).pushed, s.pushed < 0x3000_0000
     //@  loop 0 decreases 0x3000_0000 - s.pushed
+    //@end
+    // ---------------------------------------------------------------- C06: scope exit
+    //@fn file=yarel/src/compiler.rs path=Parser::begin_scope props=C06
+    //@  requires old(self).pwf(), old(self).cur().scope_depth < usize::MAX
+    //@  ensures final(self).pwf(), final(self).cur().scope_depth == old(self).cur().scope_depth + 1
+    //@  ensures final(self).cur().locals == old(self).cur().locals && final(self).code() == old(self).code() && final(self).compilers.len() == old(self).compilers.len()
+    //@end
+
+    //@fn file=yarel/src/compiler.rs path=Parser::emit_scope_end props=C06,C04
+    //@  rewrite R5 R15
+    //@  subst "opcodes.push(opcode as u8)" => "opcodes.push(opcode_u8(opcode))" count=1
+    //@  requires old(self).pwf(), all_initialised(old(self).cur().locals@)
+    //@  ensures final(self).pwf(), final(self).compilers.len() == old(self).compilers.len()
+    //@  ensures final(self).code() == old(self).code() + scope_end_code(old(self).cur().locals@, scope_depth)
+    //@  ensures pop_locals ==> final(self).cur().locals@ == old(self).cur().locals@.subrange(0, old(self).cur().locals@.len() - drop_count(old(self).cur().locals@, scope_depth))
+    //@  ensures !pop_locals ==> final(self).cur().locals@ == old(self).cur().locals@
+    //@  ensures same_compiler_but_code_locals(old(self).cur(), final(self).cur()) && final(self).errors == old(self).errors && final(self).pushed == old(self).pushed
+    //@  ensures forall|i: int| 0 <= i < old(self).compilers.len() - 1 ==> final(self).compilers[i] == old(self).compilers[i]
+    //@  at body.start let ghost locs = self.cur().locals@;
+    //@  loop 0 invariant_except_break scope_end_code(locs, scope_depth) == opcodes@ + scope_end_code(locs.subrange(0, __k0 as int), scope_depth)
+    //@  loop 0 invariant_except_break drop_count(locs, scope_depth) == opcodes@.len() + drop_count(locs.subrange(0, __k0 as int), scope_depth)
+    //@  loop 0 invariant *self == *old(self), locs == self.cur().locals@, __k0 <= locs.len(), self.pwf(), all_initialised(locs)
+    //@  loop 0 ensures scope_end_code(locs, scope_depth) == opcodes@, drop_count(locs, scope_depth) == opcodes@.len()
+    //@  loop 0 decreases __k0
+    //@  before "while __k0 > 0" proof { assert(locs.subrange(0, locs.len() as int) =~= locs); assert(opcodes@ + scope_end_code(locs, scope_depth) =~= scope_end_code(locs, scope_depth)); }
+    //@  after "__k0 -= 1;" proof { assert(locs.subrange(0, __k0 as int + 1).drop_last() =~= locs.subrange(0, __k0 as int)); assert(locs.subrange(0, __k0 as int + 1).last() == locs[__k0 as int]); }
+    //@  at loop0.end proof { assert(seq![close_op(locs[__k0 as int])] + scope_end_code(locs.subrange(0, __k0 as int), scope_depth) == scope_end_code(locs.subrange(0, __k0 as int + 1), scope_depth)); }
+    //@  loop 1 iter it
+    //@  loop 1 invariant self.pwf(), self.compilers.len() == old(self).compilers.len()
+    //@  loop 1 invariant self.code() == old(self).code() + opcodes@.subrange(0, it.index@ as int)
+    //@  loop 1 invariant pop_locals ==> self.cur().locals@ == locs.subrange(0, locs.len() - it.index@)
+    //@  loop 1 invariant !pop_locals ==> self.cur().locals@ == locs
+    //@  loop 1 invariant same_compiler_but_code_locals(old(self).cur(), self.cur()) && self.errors == old(self).errors && self.pushed == old(self).pushed
+    //@  loop 1 invariant forall|i: int| 0 <= i < old(self).compilers.len() - 1 ==> self.compilers[i] == old(self).compilers[i]
+    //@  loop 1 invariant opcodes@.len() == drop_count(locs, scope_depth) <= locs.len(), locs == old(self).cur().locals@
+    //@  before "for __r0 in" proof { lemma_drop_count_le(locs, scope_depth); }
+    //@end
+    //@fn file=yarel/src/compiler.rs path=Parser::end_scope props=C06
+    //@  requires old(self).pwf(), all_initialised(old(self).cur().locals@), old(self).cur().scope_depth > 0
+    //@  ensures final(self).pwf(), final(self).cur().scope_depth == old(self).cur().scope_depth - 1
+    //@  ensures final(self).code() == old(self).code() + scope_end_code(old(self).cur().locals@, (old(self).cur().scope_depth - 1) as usize)
+    //@  ensures final(self).cur().locals@ == old(self).cur().locals@.subrange(0, old(self).cur().locals@.len() - drop_count(old(self).cur().locals@, (old(self).cur().scope_depth - 1) as usize))
+    //@  ensures final(self).compilers.len() == old(self).compilers.len()
+    //@end
+
+    // break: the locals of the scopes being left must be discarded BEFORE control leaves the loop body, so that the
+    // instruction after the loop is reached with the same operand-stack height as on the normal exit path.
+    //@fn file=yarel/src/compiler.rs path=Parser::break_statement props=C04,C06
+    //@  requires old(self).pwf(), all_initialised(old(self).cur().locals@), old(self).code().len() < 0x4000_0000_0000_0000
+    //@  requires old(self).cur().loop_stack@.len() == old(self).cur().break_stack@.len()
+    //@  ensures final(self).pwf(), old(self).has_error() ==> final(self).has_error()
+    //@  ensures old(self).cur().loop_stack@.len() == 0 ==> final(self).has_error()
+    //@  ensures old(self).cur().loop_stack@.len() > 0 ==> final(self).code() == old(self).code() + scope_end_code(old(self).cur().locals@, old(self).cur().loop_stack@.last().1) + seq![opcode_byte(OpCode::Jump), 0xffu8, 0xffu8]
+    //@  ensures old(self).cur().loop_stack@.len() > 0 ==> final(self).cur().break_stack@.len() == old(self).cur().break_stack@.len() && final(self).cur().break_stack@.last()@ == old(self).cur().break_stack@.last()@.push((final(self).code().len() - 2) as usize)
+    //@  ensures final(self).cur().locals@ == old(self).cur().locals@
+    //@  at body.start proof { if old(self).cur().loop_stack@.len() > 0 { lemma_drop_count_le(old(self).cur().locals@, old(self).cur().loop_stack@.last().1); } }
+    //@end
+
+    //@fn file=yarel/src/compiler.rs path=Parser::continue_statement props=C04,C06
+    //@  requires old(self).pwf(), all_initialised(old(self).cur().locals@), old(self).code().len() < 0x2000_0000_0000_0000
+    //@  requires forall|i: int| 0 <= i < old(self).cur().loop_stack@.len() ==> (#[trigger] old(self).cur().loop_stack@[i]).0 <= old(self).code().len()
+    //@  ensures final(self).pwf(), old(self).has_error() ==> final(self).has_error()
+    //@  ensures old(self).cur().loop_stack@.len() == 0 ==> final(self).has_error()
+    //@  ensures old(self).cur().loop_stack@.len() > 0 ==> ({ let pops = scope_end_code(old(self).cur().locals@, old(self).cur().loop_stack@.last().1); let n = old(self).code().len() + pops.len(); final(self).code().len() == n + 3 && final(self).code().subrange(0, n as int) == old(self).code() + pops && final(self).code()[n as int] == opcode_byte(OpCode::Loop) && (final(self).has_error() || n + 3 - u16_of(final(self).code()[n as int + 1], final(self).code()[n as int + 2]) == old(self).cur().loop_stack@.last().0) })
+    //@  ensures final(self).cur().locals@ == old(self).cur().locals@
+    //@  before "self.emit_loop(jump_target);" proof { lemma_drop_count_le(old(self).cur().locals@, scope_depth); }
     //@end
 }
 
